@@ -64,6 +64,10 @@ def run(tier, v):
     if drift:
         v.notes.append("DRIFT property=C14 the real group content differs from Ingest.tla after %d step(s)" % drift)
 
+    # 1b. schedules of Dispatch.tla itself (all its actions, not only the hand-over order) replayed in lock step
+    from checks import dschedcommon
+    ds = dschedcommon.run_dispatch_schedules(PID, tier, v)
+
     # 2. the observer clause on the end-to-end scenario runs
     e = e2ecommon._run_scenarios(PID, tier, v, 200, 3000)
     e2ecommon.judge(PID, v, e, {"C14"})
@@ -74,7 +78,7 @@ def run(tier, v):
         "evaluations": total, "distinct_nontrivial": sum(r["nontrivial"] for r in results),
         "rule": "one case = one schedule of Ingest.tla (4 updates fire/resolve/fire/resolve or 3 updates, up to 3 workers holding updates at once, "
                 "up to 2 flush periods), all of them enumerated by TLC; non-trivial = the schedule hands the updates over out of submission order and the stale result shows on the real dispatcher",
-        "f3_schedules": f3, "f3_counterexample_in_model": f3_in_model, "drift_steps": drift,
+        "dispatch_schedules": ds, "f3_schedules": f3, "f3_counterexample_in_model": f3_in_model, "drift_steps": drift,
         "samples": [results[0]["samples"][0]] if results[0]["samples"] else [],
         "exhaustive": True,
         "bounds": "MC_Dispatch: 2 workers (3 thorough), 3-4 versions, all interleavings of Recv/Load/Insert/Create/Store/FlushBegin/FlushEnd/Maint; "
@@ -84,7 +88,7 @@ def run(tier, v):
         "the hook between receive and route (build tag verif) is the only scheduling control; routeAlert itself runs un-gated",
         "time passes only in flush periods (virtual time)",
         "F3 is a listed finding: schedules that hand updates over in submission order must satisfy the property; out-of-order ones are excused only when the real result equals the model's",
-    ]
+    ] + dschedcommon.ASSUMPTIONS
 
 
 def replay(path, v):
